@@ -17,6 +17,7 @@ struct Lifetime
     FaultCounter ctor_fault, copy_fault, assign_fault;
     long n_ctor = 0, n_copy = 0, n_assign = 0, n_dtor = 0;
     bool tracking = true;
+    bool quiet = false; // harness-side element traffic: not counted, never a fault point
 
     void born(void const* p, char const* how)
     {
@@ -45,6 +46,13 @@ inline Lifetime*& lifetime()
     return l;
 }
 
+struct QuietScope
+{
+    bool old;
+    QuietScope() : old(lifetime()->quiet) { lifetime()->quiet = true; }
+    ~QuietScope() { lifetime()->quiet = old; }
+};
+
 struct Tracked
 {
     uint32_t id;
@@ -52,8 +60,7 @@ struct Tracked
     Tracked() : id(0)
     {
         auto L = lifetime();
-        ++L->n_ctor;
-        if (L->ctor_fault.hit()) throw ElemFault();
+        if (!L->quiet) { ++L->n_ctor; if (L->ctor_fault.hit()) throw ElemFault(); }
         L->born(this, "default");
     }
     explicit Tracked(uint32_t v) : id(v)
@@ -63,18 +70,16 @@ struct Tracked
     Tracked(Tracked const& o) : id(o.id)
     {
         auto L = lifetime();
-        ++L->n_copy;
         L->used(&o, "copy-from");
-        if (L->copy_fault.hit()) throw ElemFault();
+        if (!L->quiet) { ++L->n_copy; if (L->copy_fault.hit()) throw ElemFault(); }
         L->born(this, "copy");
     }
     Tracked& operator=(Tracked const& o)
     {
         auto L = lifetime();
-        ++L->n_assign;
         L->used(&o, "assign-from");
         L->used(this, "assign-to");
-        if (L->assign_fault.hit()) throw ElemFault();
+        if (!L->quiet) { ++L->n_assign; if (L->assign_fault.hit()) throw ElemFault(); }
         id = o.id;
         return *this;
     }
